@@ -7,6 +7,7 @@
 
 #include <zlib.h>
 
+#include <cctype>
 #include <cstring>
 #include <filesystem>
 #include <fstream>
@@ -288,6 +289,53 @@ json observe(world& w)
     for (auto& t : w.db->tracks())
         ids.push_back(t.id());
     o["tracks"] = ids;
+    // lookups by path: the stored spelling and near misses of it (other separator, other case, padding) - observers whose
+    // ARGUMENT does not match exactly are observers too (C16); only the exact spelling has a prescribed answer
+    json lk = json::array();
+    for (size_t i = 1; i < w.th.size(); ++i)
+    {
+        if (!w.th[i] || !w.th[i]->is_valid())
+            continue;
+        std::string p;
+        try
+        {
+            p = w.th[i]->relative_path();
+        }
+        catch (const std::exception&)
+        {
+            continue;
+        }
+        auto swapped = [&](char from, char to) {
+            std::string q = p;
+            for (auto& ch : q)
+                if (ch == from)
+                    ch = to;
+            return q;
+        };
+        std::string up = p, lo = p;
+        for (auto& ch : up)
+            ch = (char)std::toupper((unsigned char)ch);
+        for (auto& ch : lo)
+            ch = (char)std::tolower((unsigned char)ch);
+        std::vector<std::pair<std::string, std::string>> variants = {{"exact", p}, {"bs2s", swapped('\\', '/')}, {"s2bs", swapped('/', '\\')},
+                                                                     {"upper", up}, {"lower", lo}, {"pad", p + " "}, {"dot", "./" + p}, {"empty", ""}};
+        for (auto& [kind, q] : variants)
+        {
+            if (kind != "exact" && kind != "empty" && q == p)
+                continue;
+            json e = {{"id", w.th[i]->id()}, {"k", kind}};
+            auto ov = vh::guarded("tracks_by_relative_path", [&] {
+                json r = json::array();
+                for (auto& t : w.db->tracks_by_relative_path(q))
+                    r.push_back(t.id());
+                e["r"] = r;
+            });
+            e["out"] = ov.ok ? "ok" : "throw";
+            e["std"] = ov.ok || ov.std_exc;
+            lk.push_back(std::move(e));
+        }
+    }
+    o["lk"] = lk;
     if (w.blobs)
         o["bl"] = blob_columns(w);
     if (w.raw)
@@ -377,7 +425,7 @@ json pathinfo(const std::optional<std::string>& p)
 {
     if (!p)
         return {{"base", "="}, {"ext", "="}, {"has_ext", false}};
-    auto slash = p->find_last_of("/\\");
+    auto slash = p->rfind('/');   // (the separator of Engine paths; a backslash is an ordinary character of a name)
     std::string base = slash == std::string::npos ? *p : p->substr(slash + 1);
     auto dot = base.rfind('.');
     bool has = dot != std::string::npos && dot + 1 < base.size();
